@@ -116,6 +116,14 @@ def import_histories():
                 ("%s local import: imported file gains a subdir" % kind, dict(versions=vs, tree0=t1, ops=[R({}), E(t3), R({})])),
                 ("%s local import: edit, killed run, narrower run" % kind, dict(versions=vs, tree0=t1, ops=[R({}), E(t2), R({}, 5), R({"builders": ["b0"]})])),
                 ("%s local import: unchanged" % kind, dict(versions=vs, tree0=t1, ops=[R({}), R({"builders": ["b1"]})]))]
+        # the lazefile of an import is the first of laze-lib.yml, laze.yml, laze-project.yml that exists
+        vs2 = dict(vs); vs2["vendor/libfoo/laze-lib.yml"] = [lib2]; vs2["vendor/libfoo/laze-project.yml"] = [lib1]
+        t4 = dict(t1); t4["vendor/libfoo/laze-lib.yml"] = 1
+        t5 = {"laze-project.yml": 1, "vendor/libfoo/laze-project.yml": 1}
+        t6 = dict(t5); t6["vendor/libfoo/laze.yml"] = 2
+        out += [("%s local import: a lazefile of higher precedence appears" % kind, dict(versions=vs2, tree0=t1, ops=[R({}), E(t4), R({})])),
+                ("%s local import: a lazefile of higher precedence appears and goes" % kind, dict(versions=vs2, tree0=t1, ops=[R({}), E(t4), R({}), E(t1), R({})])),
+                ("%s local import: laze.yml appears next to laze-project.yml" % kind, dict(versions=vs2, tree0=t5, ops=[R({}), E(t6), R({"builders": ["b1"]})]))]
     return out
 
 # ---------------------------------------------------------------- known findings: witnesses on the implementation
